@@ -33,15 +33,41 @@ def work_graph(chunk, extra):
     for g in chunk:
         m = d.one(['pm', g])
         mm = m.get('ok') if 'ok' in m else m
-        im = None
+        im = 'n/a'          # the internal function is not importable: only the model is judged
         if find_perfect_matching is not None:
             r = call(find_perfect_matching, [list(a) for a in g])
             im = r.get('ok') if 'ok' in r else r
-        has = d.one(['haspm', g])
+        # does a perfect matching exist?  a valid matching from the model is a certificate; otherwise the exact
+        # search (exponential on graphs without one) is only run on small graphs
+        if isinstance(mm, list) and d.one(['ispm', g, mm]):
+            has = True
+        elif len(g) <= 20:
+            has = d.one(['haspm', g])
+        else:
+            has = None
         valid = None
-        if isinstance(im, list):
-            valid = d.one(['ispm', g, im])
+        if isinstance(im, list) or (im == 'n/a' and isinstance(mm, list)):
+            valid = d.one(['ispm', g, im if isinstance(im, list) else mm])
         out.append((g, im, mm, has, valid))
+    return out
+
+
+def work_hard(chunk, extra):
+    """rejection sampling of the instances that need several augmenting searches in one call: benzenoid flakes in random
+    node orders on which the greedy pre-matching (model) leaves >= 4 atoms unmatched"""
+    d = drv()
+    out = []
+    for (seed, count) in chunk:
+        rng = core.rng_for(seed, 'C05/hard')
+        keep = []
+        for _ in range(count):
+            g = hex_flake(rng, rng.choice([8, 10, 12, 14, 16, 19, 22]))
+            if len(g) % 2:
+                continue
+            gm = d.one(['greedy', g])
+            if 'ok' in gm and sum(1 for x in gm['ok'] if x is None) >= 4:
+                keep.append(g)
+        out.append((count, work_graph(keep, None)))
     return out
 
 
@@ -69,13 +95,48 @@ def small_graphs(rng, n_nodes, count):
     return out
 
 
+def hex_flake(rng, n_hex):
+    """a benzenoid flake: n_hex hexagons grown on the hexagonal lattice; returns adjacency lists (random node order, random neighbour order)"""
+    # hexagons on axial coordinates; vertices as corners identified by rounded positions
+    import math
+    cells = {(0, 0)}
+    while len(cells) < n_hex:
+        q, r = rng.choice(sorted(cells))
+        dq, dr = rng.choice([(1, 0), (-1, 0), (0, 1), (0, -1), (1, -1), (-1, 1)])
+        cells.add((q + dq, r + dr))
+    verts = {}
+    edges = set()
+    for (q, r) in cells:
+        cx = math.sqrt(3) * (q + r / 2.0)
+        cy = 1.5 * r
+        corners = []
+        for k in range(6):
+            ang = math.pi / 180 * (60 * k - 30)
+            key = (round(cx + math.cos(ang), 3), round(cy + math.sin(ang), 3))
+            corners.append(verts.setdefault(key, len(verts)))
+        for k in range(6):
+            a, b_ = corners[k], corners[(k + 1) % 6]
+            edges.add((min(a, b_), max(a, b_)))
+    n = len(verts)
+    perm = list(range(n))
+    rng.shuffle(perm)
+    adj = [[] for _ in range(n)]
+    for a, b_ in edges:
+        adj[perm[a]].append(perm[b_]); adj[perm[b_]].append(perm[a])
+    for a in adj:
+        rng.shuffle(a)
+    return adj
+
+
 TEMPLATES = ['c1ccccc1', 'c1ccc2ccccc2c1', 'c1ccc2cc3ccccc3cc2c1', 'c1cc2ccc3cccc4ccc(c1)c2c34', 'c1ccc2c(c1)ccc1ccccc12', 'c1ccc2c(c1)c1cccc3cccc2c31',
              'c1cc2cccc3ccc4cccc5ccc(c1)c2c3c45', 'c1ccc2[nH]ccc2c1', 'c1ccc2occc2c1', 'c1ccc2sccc2c1', 'c1ccncc1', 'c1ccc2ncccc2c1', 'c1cnc2ccccc2n1', 'Cn1cccc1', 'c1cc[nH]c1',
              'c1ccoc1', 'c1ccsc1', 'c1cnc[nH]1', 'c1ccc2[nH]c3ccccc3c2c1', 'c1cc2ccc3ccc4ccc5ccc6ccc1c1c2c3c4c5c61', 'c1ccpcc1', 'c1cc[n+](C)cc1', 'c1ccc2cc3cc4ccccc4cc3cc2c1',
              'c1ccc2c(c1)c1ccccc1c1ccccc21', 'c1cc2cc3ccc4cc5ccc6cc1c1c2c3c4c5c61', 'c1ccc(cc1)-c1ccccc1', 'c12c3c4c1c1c2c3c41', 'c1cc2ccc3ccc1c23', 'c1cccc1', 'c1cc1', 'c1ccccccc1',
              'c1cccccccc1', 'c1ccc2cccc2cc1', 'c1cc2cccccc2c1', 'O=c1cc[nH]cc1', 'O=c1ccocc1', 'c1cc2cc3ccc(cc4ccc(cc5ccc(cc1n2)[nH]5)n4)[nH]3',
              'c1ccc2c(c1)c1nc3nc(nc4[nH]c(nc5nc(nc2[nH]1)c1ccccc51)c1ccccc41)c1ccccc31',
-             'c12c3c4c5c1c1c6c7c2c2c8c3c3c9c4c4c%10c5c5c1c1c6c6c%11c7c2c2c7c8c3c3c8c9c4c4c9c%10c5c5c1c1c6c6c%11c2c2c7c3c3c8c4c4c9c5c1c1c6c2c3c41']
+             'c12c3c4c5c1c1c6c7c2c2c8c3c3c9c4c4c%10c5c5c1c1c6c6c%11c7c2c2c7c8c3c3c8c9c4c4c9c%10c5c5c1c1c6c6c%11c2c2c7c3c3c8c4c4c9c5c1c1c6c2c3c41',
+             'c1cc[se]c1', 'c1ccc2[se]ccc2c1', 'c1cc[as]cc1', 'c1c[as]cc[as]1', 'c1ccc2[as]c3ccccc3[as]c2c1', 'c1cc[se+]cc1', 'c1c[se+]cc[se+]1', 'c1cc[te]c1', 'c1cc[asH]c1',
+             'c1ccc2[te]ccc2c1', 'C[as+]1ccccc1', 'c1ccc2c(c1)ccc1c2ccc2ccccc12', 'c1cc2ccc3ccc4ccc5cccc6c(c1)c2c3c4c56']
 
 
 def run(rep, tier, seed, b):
@@ -84,14 +145,22 @@ def run(rep, tier, seed, b):
     graphs = small_graphs(rng, [4, 6, 8, 8, 10, 12], 6000 if tier == 'quick' else 200000)
     if tier == 'thorough':
         graphs += small_graphs(rng, [14, 16, 20, 30], 20000)
+    # benzenoid flakes in random node orders: several augmenting searches in one call
+    for _ in range(9000 if tier == 'quick' else 150000):
+        graphs.append(hex_flake(rng, rng.choice([4, 7, 10, 12, 14, 16, 19])))
     gres = core.pmap('p_c05', 'work_graph', graphs, chunk=500)
+    hard = core.pmap('p_c05', 'work_hard', [(seed * 1000 + i, 2500 if tier == 'quick' else 40000) for i in range(32)], chunk=1)
+    rep.extra['flakes_sampled_for_multi_search_instances'] = sum(h[0] for h in hard)
+    rep.extra['multi_search_instances'] = sum(len(h[1]) for h in hard)
+    for h in hard:
+        gres += h[1]
     for (g, im, mm, has, valid) in gres:
         rep.evaluations += 1
-        if im is not None or mm is not None:
+        if im != 'n/a':
             rep.impl_traces += 1
-        if im != mm and not (isinstance(im, dict) or isinstance(mm, dict)):
-            rep.disagreements.append({'op': 'find_perfect_matching', 'input': {'graph': g}, 'impl': im, 'model': mm})
-        res = im if im is not None or mm is None else mm
+            if im != mm and not (isinstance(im, dict) or isinstance(mm, dict)):
+                rep.disagreements.append({'op': 'find_perfect_matching', 'input': {'graph': g}, 'impl': im, 'model': mm})
+        res = mm if im == 'n/a' else im
         bad = None
         if isinstance(res, list) and valid is False:
             bad = 'a returned matching is a perfect matching of the graph'
@@ -99,7 +168,9 @@ def run(rep, tier, seed, b):
             bad = 'None is returned only if the graph has no perfect matching'
         if bad:
             # classifier: this IS the blossom defect (the routine itself on a non-bipartite graph)
-            rep.oracle_failures.append({'clause': bad, 'input': {'graph': g}, 'impl': res, 'klass': 'matching-no-blossom'})
+            # known-finding class only if the MODEL of the unchanged algorithm shows the same defect on this graph
+            same_in_model = (isinstance(mm, list) and isinstance(res, list) and not drv().one(['ispm', g, mm])) or (mm is None and res is None)
+            rep.oracle_failures.append({'clause': bad, 'input': {'graph': g}, 'impl': res, 'klass': 'matching-no-blossom' if same_in_model else None})
         rep.count('graph:' + ('matching' if isinstance(res, list) else 'none' if res is None else 'error'))
         if has and len(g) >= 8:
             rep.nontriv(str(g))
